@@ -65,7 +65,62 @@ def reads(cls):
     return out
 
 
+def option_dispatch_by_equality(ctx: Ctx):
+    """C18.l a documented string option (`prize_type`, `depot_mode`, `variant_preset`, the distribution name of get_sampler ...)
+    selects its branch by EQUALITY: in every if / elif chain of the generator modules in which one subject is compared with string
+    (or distribution-class) constants in two or more tests, each test is `==` / `in` / `is` -- one `!=` in such a chain sends
+    every other value of the option into that branch (`prize_type != "const"` gives constant prizes for "unif" and "dist") while
+    the value itself falls through to the next one.  A lone guard `if x != "a": raise` is not a chain and is not looked at."""
+    mods = [mi for mi in sorted(ctx.repo.modules.values(), key=lambda m: m.relpath)
+            if mi.relpath.startswith("rl4co/envs/") and (mi.relpath.endswith("generator.py") or mi.relpath.endswith("common/utils.py") or mi.relpath.endswith("common/distribution_utils.py"))]
+    n_chain = 0
+
+    def tests_of(ifnode):
+        out, cur = [], ifnode
+        while True:
+            out.append(cur.test)
+            if len(cur.orelse) == 1 and isinstance(cur.orelse[0], ast.If):
+                cur = cur.orelse[0]
+            else:
+                return out
+
+    for mi in mods:
+        inner = set()
+        for node in ast.walk(mi.tree):
+            if not isinstance(node, ast.If) or id(node) in inner:
+                continue
+            tests = tests_of(node)
+            cur = node
+            while len(cur.orelse) == 1 and isinstance(cur.orelse[0], ast.If):
+                cur = cur.orelse[0]
+                inner.add(id(cur))
+            cmps = {}
+            for t in tests:
+                for c in ast.walk(t):
+                    if isinstance(c, ast.Compare) and len(c.ops) == 1 and isinstance(c.ops[0], (ast.Eq, ast.NotEq, ast.In, ast.NotIn, ast.Is, ast.IsNot)):
+                        rhs, lhs = c.comparators[0], c.left
+                        if isinstance(c.ops[0], (ast.Eq, ast.NotEq, ast.Is, ast.IsNot)) and ((isinstance(lhs, ast.Constant) and isinstance(lhs.value, str)) or (isinstance(lhs, ast.Name) and lhs.id[:1].isupper())) \
+                                and not isinstance(rhs, ast.Constant):
+                            rhs, lhs = lhs, rhs          # mirrored spelling: "const" == self.prize_type
+                        const = (isinstance(rhs, ast.Constant) and isinstance(rhs.value, str)) or (isinstance(rhs, ast.Name) and rhs.id[:1].isupper()) or \
+                            (isinstance(rhs, (ast.List, ast.Tuple, ast.Set)) and rhs.elts and all(isinstance(e, ast.Constant) and isinstance(e.value, str) for e in rhs.elts))
+                        if const:
+                            cmps.setdefault(ast.unparse(lhs), []).append(c)
+            for subj, cs in cmps.items():
+                if len(cs) < 2:
+                    continue
+                n_chain += 1
+                bad = [c for c in cs if isinstance(c.ops[0], (ast.NotEq, ast.NotIn, ast.IsNot))]
+                ctx.ob("C18.l", f"{mi.relpath}:{node.lineno}:{subj}:dispatch-by-equality", not bad, f"{mi.relpath}:{node.lineno}",
+                       f"{len(cs)} tests of `{subj}` against constants, all by equality / membership" if not bad else
+                       f"`{ast.unparse(bad[0])}` inside a dispatch chain over `{subj}`: every other value of the option takes this branch, the named one falls through",
+                       construct=f"{mi.relpath}:{subj}:dispatch")
+    if n_chain < 4:
+        raise AnalysisError(f"C18.l: only {n_chain} option-dispatch chains found in the generator modules (6 confirmed by hand)")
+
+
 def run(ctx: Ctx):
+    option_dispatch_by_equality(ctx)
     base = ctx.repo.get_class(UT, "Generator")
     gens = [c for c in ctx.repo.subclasses(base) if c.module.name.startswith("rl4co.envs")]
     if len(gens) < 18:
